@@ -386,6 +386,11 @@ func runInstance(prog *sx.Program, h Harness, params []int64, tier string, known
 				return true, o.Text
 			}
 		case "cover":
+			if os.Getenv("GOSMT_AUDIT") != "" && o.Status == "done" && !strings.Contains(o.Failed, "failed=[]") {
+				// audit aid: a cover witness whose native run fails assertions (expected only for
+				// witnesses inside a known-finding class)
+				fmt.Fprintf(os.Stderr, "AUDIT native-failures %s%v cover=%s %s\n", h.Func, params, ob.Label, o.Failed)
+			}
 			if o.Status == "done" && strings.Contains(o.Text, fmt.Sprintf("%q", ob.Label)) {
 				return true, o.Text
 			}
